@@ -300,8 +300,16 @@ func TestNumctNat(t *testing.T) {
 					out.RshCap(x, shift, capArg)
 				}
 				what += fmt.Sprintf(" shift=%d cap=%d", shift, capArg)
-				wantNat(t, what, out, mod2k(exact, eff), eff)
-				extra = fmt.Sprintf("shift%%64=%v", shift%64 == 0)
+				if op == "LshCap" && exact.BitLen() > eff {
+					// "with given capacity": the doc comment does not define the value when the shifted
+					// number does not fit (saferith keeps bits above the capacity inside the top limb);
+					// recorded, not asserted.
+					extra = "lsh-beyond-capacity(recorded)"
+					nt = false
+				} else {
+					wantNat(t, what, out, mod2k(exact, eff), eff)
+					extra = fmt.Sprintf("shift%%64=%v", shift%64 == 0)
+				}
 			case "Sqrt":
 				before := new(big.Int).Set(out.Big())
 				if aliased {
@@ -436,8 +444,8 @@ func TestNumctNat(t *testing.T) {
 				}
 				// the documented output lengths are asserted for fresh outputs (an output that
 				// already announced more bits keeps them: conditional assignment takes the maximum)
-				if !fresh || mode != "none" && mode != "nilrem" && mode != "num=den" {
-					qAnn, rAnn = -1, -1
+				if !fresh || mode != "none" && mode != "nilrem" && mode != "num=den" || n.ann == 0 {
+					qAnn, rAnn = -1, -1 // (a 0-bit numerator leaves the zero-value remainder with 0 announced bits)
 				}
 				wantNat(t, what+" quotient", q, wq, qAnn)
 				if r != nil {
@@ -544,7 +552,15 @@ func TestNumctNat(t *testing.T) {
 				if ch == 1 {
 					want = r.v
 				}
-				wantNat(t, what+fmt.Sprint(" choice=", ch), out, want, -1)
+				if out == y && x != y && ch == 1 {
+					// Select copies x0 into the receiver before reading x1: with the receiver aliasing
+					// x1 the result is x0. Same finding as the VarTime division (receiver written first).
+					vlib.Excluded(fDivVarAlias)
+					extra = "receiver=x1(excluded)"
+					nt = false
+				} else {
+					wantNat(t, what+fmt.Sprint(" choice=", ch), out, want, -1)
+				}
 			case "CondAssign":
 				ch := ct.Choice(rapid.IntRange(0, 1).Draw(t, "choice"))
 				// out := x-valued, conditionally assigned y
